@@ -29,8 +29,11 @@ type cfgT struct {
 	MaxAge        int      `json:"MaxAge"`
 	AllowHeaders  []string `json:"AllowHeaders"`
 	ExposeHeaders []string `json:"ExposeHeaders"`
-	AllowMethods  []string `json:"AllowMethods"` // nil = default list
+	AllowMethods  []string `json:"AllowMethods"`   // nil = default list
+	Next          string   `json:"Next,omitempty"` // "" = nil, nextMarked = skips requests that carry X-Skip
 }
+
+const nextMarked = "returns true for requests that carry X-Skip"
 
 type originV struct {
 	Has   bool   `json:"present"`
@@ -44,6 +47,7 @@ type reqT struct {
 	ACRM   string  `json:"access_control_request_method"`
 	ACRH   string  `json:"access_control_request_headers"`
 	PN     string  `json:"access_control_request_private_network"`
+	Skip   bool    `json:"x_skip,omitempty"` // carries X-Skip: the configured Next (if any) skips the middleware
 }
 
 const (
@@ -200,7 +204,12 @@ func build(c cfgT) (t target, rejected string) {
 			rejected = classifyPanic(v)
 		}
 	}()
+	var next func(fiber.Ctx) bool
+	if c.Next == nextMarked {
+		next = func(ctx fiber.Ctx) bool { return ctx.Get("X-Skip") != "" }
+	}
 	mw := cors.New(cors.Config{
+		Next:                next,
 		AllowOrigins:        c.Origins,
 		AllowOriginsFunc:    makeFn(c.Func),
 		AllowCredentials:    c.Cred,
@@ -230,6 +239,9 @@ func mkReq(q reqT) *fasthttp.Request {
 	}
 	if q.PN != "" {
 		hs = append(hs, "Access-Control-Request-Private-Network", q.PN)
+	}
+	if q.Skip {
+		hs = append(hs, "X-Skip", "1") // last: the other headers keep their positions
 	}
 	return fx.Req(q.Method, "http://app.test/", hs...)
 }
@@ -327,6 +339,7 @@ type vrec struct {
 	sig, what     string
 	cs, obs, want any
 	count         int64
+	stem          string // for a qualified signature: the signature without its qualifier (see foldQualified)
 }
 
 type cfgResult struct {
@@ -408,8 +421,35 @@ func (cr *cfgResult) violate(sig, what string, cs, obs, want any) {
 		v.count++
 		return
 	}
-	cr.viols[sig] = &vrec{sig, what, cs, obs, want, 1}
+	cr.viols[sig] = &vrec{sig, what, cs, obs, want, 1, ""}
 	cr.order = append(cr.order, sig)
+}
+
+// violateQ records a violation whose signature carries a qualifier naming the dimension
+// that exposed it (" request=method-not-listed", " history-only after=..."). When the run
+// also reports the unqualified stem, the qualified signature is the same root cause seen
+// again and is folded into the stem at the end of the run (foldQualified).
+func (cr *cfgResult) violateQ(stem, qual, what string, cs, obs, want any) {
+	cr.violate(stem+qual, what, cs, obs, want)
+	cr.viols[stem+qual].stem = stem
+}
+
+func foldQualified(viols map[string]*aggRec) {
+	var sigs []string
+	for sig := range viols {
+		sigs = append(sigs, sig)
+	}
+	sort.Strings(sigs)
+	for _, sig := range sigs {
+		v := viols[sig]
+		if v.stem == "" {
+			continue
+		}
+		if base, ok := viols[v.stem]; ok {
+			base.count += v.count
+			delete(viols, sig)
+		}
+	}
 }
 
 func kindOf(q reqT) string {
@@ -445,7 +485,15 @@ func main() {
 	// (a permitted origin does get ACAO) is observed and reported in the evidence, and
 	// becomes a violation only with -demand-emission.
 	demandEmission := flag.Bool("demand-emission", false, "also fail when a permitted origin receives no Access-Control-Allow-Origin")
+	skipFlag := flag.String("skip", "", "diagnostics only: comma separated families to leave out (unlisted, neigh, hist, concurrent); the run is then reported as not exhaustive")
 	r := core.Start("C19")
+	skip := map[string]bool{}
+	for _, f := range strings.Split(*skipFlag, ",") {
+		if f != "" {
+			skip[f] = true
+			r.Cap("diagnostic run without family " + f)
+		}
+	}
 	menu, origins := originMenuQuick, originsQuick
 	funcs := []string{"", fnOnlyF}
 	acrhs := []string{"", "X-A"}
@@ -468,7 +516,7 @@ func main() {
 						for _, ah := range [][]string{nil, {"X-A", "Content-Type"}} {
 							for _, eh := range [][]string{nil, {"X-Out", "ETag"}} {
 								for _, am := range methodSets {
-									cfgs = append(cfgs, cfgT{ol, fn, cred, pn, ma, ah, eh, am})
+									cfgs = append(cfgs, cfgT{ol, fn, cred, pn, ma, ah, eh, am, ""})
 								}
 							}
 						}
@@ -477,6 +525,11 @@ func main() {
 			}
 		}
 	}
+	// entries the constructor must refuse (alone and behind a valid entry): rejected configurations
+	for _, bad := range []string{"https://c.test/path", "https://*", "null", "https://%zz", "https://c.test?x=1", "https://*.c.test#f", "://c.test"} {
+		cfgs = append(cfgs, cfgT{Origins: []string{bad}}, cfgT{Origins: []string{"https://a.test", bad}})
+	}
+	listRule += "; plus 14 configurations with an entry the constructor must refuse (path, query, fragment, bare wildcard host, 'null', bad escape, no scheme; alone and behind a valid entry)"
 	extra := 0
 	if !r.Quick() {
 		// plus every 3-entry list (menu order; order effects are covered by the ordered pairs),
@@ -486,7 +539,7 @@ func main() {
 				for k := j + 1; k < len(menu); k++ {
 					for _, fn := range funcs {
 						for _, cred := range []bool{false, true} {
-							cfgs = append(cfgs, cfgT{[]string{menu[i], menu[j], menu[k]}, fn, cred, true, 60, []string{"X-A", "Content-Type"}, []string{"X-Out", "ETag"}, nil})
+							cfgs = append(cfgs, cfgT{[]string{menu[i], menu[j], menu[k]}, fn, cred, true, 60, []string{"X-A", "Content-Type"}, []string{"X-Out", "ETag"}, nil, ""})
 							extra++
 						}
 					}
@@ -502,6 +555,29 @@ func main() {
 			for _, acrh := range acrhs {
 				for _, pn := range pns {
 					groups = append(groups, group{m, acrm, acrh, pn})
+				}
+			}
+		}
+	}
+
+	// preflights that ask for a method / headers OUTSIDE the configured sets, or in another
+	// case: PUT and X-A above are members of every configured set, so a middleware that
+	// treats unlisted requests differently (falls through, refuses, echoes) needs these.
+	baseGroups := len(groups)
+	if !skip["unlisted"] {
+		xacrh := []string{"", "X-A", "X-Other", "x-a, X-Other"}
+		for _, acrm := range []string{"DELETE", "TRACE", "put"} { // DELETE: default list only; TRACE: in no list
+			for _, acrh := range xacrh {
+				groups = append(groups, group{"OPTIONS", acrm, acrh, ""})
+			}
+		}
+		for _, acrh := range xacrh[2:] {
+			groups = append(groups, group{"OPTIONS", "PUT", acrh, ""})
+		}
+		if !r.Quick() {
+			for _, acrm := range []string{"GET", "options", "X-CUSTOM", "GET, PUT"} {
+				for _, acrh := range []string{"", "X-Other, X-A", "content-type"} {
+					groups = append(groups, group{"OPTIONS", acrm, acrh, "true"})
 				}
 			}
 		}
@@ -523,168 +599,47 @@ func main() {
 			l.Outcome("rejected configuration: " + rejected)
 			return
 		}
-		pol := buildPolicy(c.Origins, makeFn(c.Func))
-		wantMethods := c.AllowMethods
-		if len(wantMethods) == 0 {
-			wantMethods = defaultMethods
-		}
+		j := newJudger(c, *demandEmission)
+		pol := j.pol
 		var fctx fasthttp.RequestCtx
 		obs := make([]obsT, len(origins))
+		qs := make([]reqT, len(origins))
 		outs := map[outKey]int64{}
-		reqs := make([]*fasthttp.Request, len(groups)*len(origins)) // built per configuration: nothing shared between workers
-		for gi, g := range groups {
-			for oi, ov := range origins {
-				reqs[gi*len(origins)+oi] = mkReq(reqT{g.method, ov, g.acrm, g.acrh, g.pn})
-			}
-		}
 		defer func() {
 			for k, n := range outs {
 				l.P.Outcomes[k.String()] += n
 			}
 		}()
-		tokMemo := map[string]bool{}
-		same := func(got string, want []string, fold bool) bool {
-			k := got + "\x00" + strings.Join(want, ",")
-			v, ok := tokMemo[k]
-			if !ok {
-				v = sameTokens(got, want, fold)
-				tokMemo[k] = v
-			}
-			return v
-		}
 		for gi, g := range groups {
 			for oi, ov := range origins {
-				q := reqT{g.method, ov, g.acrm, g.acrh, g.pn}
-				o := runReq(t, &fctx, reqs[gi*len(origins)+oi])
-				obs[oi] = o
-				kind := kindOf(q)
-				cs := caseT{c, q, kind}
+				q := reqT{g.method, ov, g.acrm, g.acrh, g.pn, false}
+				o := run(t, &fctx, q)
+				obs[oi], qs[oi] = o, q
 				l.Add("evaluations", 1)
 				if ov.Has && !pol.allowAll {
 					l.Add("nontrivial", 1)
 				}
-				ac := acaoClass(o, q)
-				outs[outKey{kind, ac, o.ACAC != "", o.VaryOrigin, o.Ran, o.Status}]++
-				if o.Panic != "" {
-					cr.violate("panic-while-serving kind="+kind, "the middleware panicked while serving a request", cs, o, nil)
-					continue
-				}
-				perm, via := no, ""
-				if kind != "no-origin" {
-					perm, via = pol.permitted(ov.V)
-				}
-				if perm == unspec {
-					l.Add("unspecified_skipped", 1)
-				}
-				if kind != "no-origin" && perm == yes && !pol.allowAll {
-					switch {
-					case via == "func":
-						l.Add("mech_func_permits", 1)
-					case strings.Contains(via, "*."):
-						l.Add("mech_wildcard_permits", 1)
-					default:
-						l.Add("mech_exact_permits", 1)
-					}
-				}
+				kind := kindOf(q)
+				outs[outKey{kind, acaoClass(o, q), o.ACAC != "", o.VaryOrigin, o.Ran, o.Status}]++
+				_, perm := j.judge(cr, l, q, o)
 				if ci%211 == 0 && gi%5 == 0 && (ov.Class == "subdomain" || ov.Class == "suffix-in-path") && len(cr.samples) < 2 {
-					cr.samples = append(cr.samples, map[string]any{"case": cs, "reference_permitted": perm.String(), "observed": o})
-				}
-
-				// (1) Access-Control-Allow-Origin only for permitted origins, with the right value
-				switch {
-				case len(o.ACAO) > 1:
-					cr.violate("acao-emitted-more-than-once kind="+kind, "several Access-Control-Allow-Origin headers", cs, o, nil)
-				case len(o.ACAO) == 1 && kind == "no-origin":
-					if !(pol.allowAll && o.ACAO[0] == "*") {
-						cr.violate("acao-without-origin-header value-class="+ac, "Access-Control-Allow-Origin on a request that carries no Origin", cs, o, "no Access-Control-Allow-Origin")
-					}
-				case len(o.ACAO) == 1 && perm == no:
-					cr.violate(fmt.Sprintf("acao-for-unpermitted-origin origin-class=%s via=%s", ov.Class, culprit(c, q)),
-						"Access-Control-Allow-Origin emitted although no list entry, wildcard-subdomain entry or function permits the Origin", cs, o, "no Access-Control-Allow-Origin")
-				case len(o.ACAO) == 1:
-					okv := o.ACAO[0] == strings.ToLower(ov.V) || (pol.allowAll && o.ACAO[0] == "*")
-					if !okv {
-						cr.violate(fmt.Sprintf("acao-wrong-value value-class=%s origin-class=%s", ac, ov.Class),
-							"Access-Control-Allow-Origin is neither the lower-cased origin nor a legitimate '*'", cs, o, strings.ToLower(ov.V))
-					}
-					if o.ACAO[0] == "*" {
-						l.Add("mech_star", 1)
-					}
-				case perm == yes && (kind == "simple" || kind == "preflight"):
-					sig := fmt.Sprintf("no-acao-for-permitted-origin origin-class=%s via=%s", ov.Class, via)
-					if *demandEmission {
-						cr.violate(sig, "the configuration permits the Origin but no Access-Control-Allow-Origin is sent", cs, o, strings.ToLower(ov.V))
-					} else {
-						// "emitted only when permitted" does not oblige emission: not demanded, but recorded
-						l.Add("unspecified_skipped", 1)
-						l.Add("permitted_origin_without_acao", 1)
-						cr.observe(sig, cs)
-					}
-				case perm == yes:
-					l.Add("unspecified_skipped", 1) // OPTIONS without request-method: statement silent
-				}
-				// (2) never credentials together with '*'
-				if o.ACAC != "" && len(o.ACAO) > 0 && o.ACAO[0] == "*" {
-					cr.violate("credentials-with-star kind="+kind, "Access-Control-Allow-Credentials sent together with Access-Control-Allow-Origin: *", cs, o, nil)
-				}
-				// (3) preflight: 204, handler not reached, configured methods/headers
-				if kind == "preflight" {
-					l.Add("mech_preflight", 1)
-					if o.Ran {
-						cr.violate("preflight-reached-handler permitted="+perm.String(), "a preflight request reached the downstream handler", cs, o, "handler not run")
-					}
-					if o.Status != 204 {
-						cr.violate(fmt.Sprintf("preflight-status-not-204 status=%d permitted=%s", o.Status, perm), "a preflight request was not answered with 204", cs, o, 204)
-					}
-					if perm == yes {
-						if !same(o.ACAM, wantMethods, false) {
-							cr.violate(fmt.Sprintf("preflight-methods-not-configured custom=%v", c.AllowMethods != nil), "Access-Control-Allow-Methods differs from the configured methods", cs, o, wantMethods)
-						}
-						if len(c.AllowHeaders) > 0 {
-							if !same(o.ACAH, c.AllowHeaders, true) {
-								cr.violate("preflight-headers-not-configured", "Access-Control-Allow-Headers differs from the configured headers", cs, o, c.AllowHeaders)
-							}
-						} else {
-							l.Add("unspecified_skipped", 1) // no headers configured: statement silent on echoing
-						}
-					} else {
-						l.Add("unspecified_skipped", 1) // methods/headers towards a refused origin: silent
-					}
-				}
-				// (4) requests outside the CORS protocol pass through untouched
-				if kind == "no-origin" || kind == "options-without-request-method" {
-					if !o.Ran || o.Status != 200 || o.Body != "ok" {
-						cr.violate(fmt.Sprintf("non-cors-request-altered kind=%s status=%d handler=%v", kind, o.Status, o.Ran), "a request outside the CORS protocol did not get the handler's own answer", cs, o, "200 ok from the handler")
-					}
+					cr.samples = append(cr.samples, map[string]any{"case": caseT{c, q, kind}, "reference_permitted": perm.String(), "observed": o})
 				}
 			}
 			// (5) Vary: Origin whenever the answer depends on the Origin value
-			fps := map[fpT]bool{}
-			var absent *obsT
-			for oi := range origins {
-				if origins[oi].Has {
-					fps[obs[oi].fingerprint()] = true
-				} else {
-					absent = &obs[oi]
-				}
-			}
-			if len(fps) > 1 {
-				l.Add("groups_varying_by_origin", 1)
-				for oi, ov := range origins {
-					if !obs[oi].VaryOrigin && obs[oi].Panic == "" {
-						q := reqT{g.method, ov, g.acrm, g.acrh, g.pn}
-						cr.violate("vary-origin-missing kind="+kindOf(q), "responses to this request differ between Origin values but this one lacks Vary: Origin",
-							caseT{c, q, kindOf(q)}, obs[oi], "Vary contains Origin")
-					}
-				}
-			} else if absent != nil && !fps[absent.fingerprint()] && !absent.VaryOrigin {
-				l.Add("unspecified_skipped", 1) // differs only between "no Origin" and "any Origin" (static '*'): silent
-			}
+			j.varyRule(cr, l, qs, obs)
 		}
 	})
+	if !skip["neigh"] {
+		runNeighbourhood(r, agg, *demandEmission) // single-edit neighbourhood of permitted probes (neigh.go)
+	}
+	if !skip["hist"] {
+		runHistories(r, agg, *demandEmission) // ordered request histories on one instance and one RequestCtx (history.go)
+	}
 
 	// deterministic merge: per signature the case of the lowest configuration index is kept
 	outside := map[string]map[string]any{}
+	foldQualified(agg.viols)
 	for sig, v := range agg.viols {
 		r.P.Violations[sig] = &core.Violation{Signature: sig, What: v.what, Case: v.cs, Observed: v.obs, Expected: v.want, Count: v.count}
 	}
@@ -700,6 +655,9 @@ func main() {
 			core.Fatal("vacuous: mechanism counter %s is zero", k)
 		}
 	}
+	if !skip["unlisted"] && r.P.Counters["mech_preflight_asks_for_unlisted"] == 0 {
+		core.Fatal("vacuous: no preflight asked for an unlisted method or header")
+	}
 	var oclasses []string
 	seen := map[string]bool{}
 	for _, o := range origins {
@@ -710,24 +668,43 @@ func main() {
 	}
 	sort.Strings(oclasses)
 	nreq := len(groups) * len(origins)
-	runConcurrent(r) // two requests in flight on one middleware instance, all interleavings (see concurrent.go)
+	if !skip["concurrent"] {
+		runConcurrent(r)
+	} // two requests in flight on one middleware instance, all interleavings (see concurrent.go)
 	r.Finish(core.Evidence{
 		Level:      "exploration",
 		Exhaustive: true,
 		Coverage: map[string]any{
 			"evaluations":         r.P.Counters["evaluations"],
 			"distinct_nontrivial": r.P.Counters["nontrivial"],
-			"rule": fmt.Sprintf("full product: %d configurations (%d %s from %q x AllowOriginsFunc %q x AllowCredentials x AllowPrivateNetwork x MaxAge{0,60,-1} x AllowHeaders{none,list} x ExposeHeaders{none,list} x AllowMethods{default,custom}; constructions that panic are counted as rejected and not explored) x %d requests (%d Origin values x method{GET,POST,OPTIONS} x Access-Control-Request-Method{absent,PUT} x Access-Control-Request-Headers %q x Access-Control-Request-Private-Network %q). A case is non-trivial when the request carries an Origin and the configuration does not allow all origins, i.e. the origin matching code decides the answer. Each response is judged by a reference policy written from the statement; Vary is judged per group of requests that differ only in Origin.",
-				len(cfgs), len(olists), listRule, menu, funcs, nreq, len(origins), acrhs, pns),
+			"rule": fmt.Sprintf("full product: %d configurations (%d %s from %q x AllowOriginsFunc %q x AllowCredentials x AllowPrivateNetwork x MaxAge{0,60,-1} x AllowHeaders{none,list} x ExposeHeaders{none,list} x AllowMethods{default,custom}; constructions that panic are counted as rejected and not explored) x %d requests (%d Origin values x method{GET,POST,OPTIONS} x Access-Control-Request-Method{absent,PUT} x Access-Control-Request-Headers %q x Access-Control-Request-Private-Network %q = %d request shapes, plus %d preflight shapes asking for a method/headers outside the configured sets or in another case). PLUS the single-edit neighbourhood family (%d configurations x %d Origin values = every insertion/replacement by one of %d letters and every deletion at every position of %d permitted probes, x {GET, preflight}) and the request-history family (%d configurations x every ordered pair of %d request letters on one fresh middleware instance and one shared RequestCtx, judged against the same reference and qualified against the solo answer). A case is non-trivial when the request carries an Origin and the configuration does not allow all origins, i.e. the origin matching code decides the answer. Each response is judged by a reference policy written from the statement; Vary is judged per group of requests that differ only in Origin.",
+				len(cfgs), len(olists), listRule, menu, funcs, nreq, len(origins), acrhs, pns, baseGroups, len(groups)-baseGroups,
+				r.P.Counters["neigh_configs"], r.P.Counters["neigh_origin_values"], len(editAlphabet), r.P.Counters["neigh_probes"],
+				r.P.Counters["hist_configs"], r.P.Counters["hist_request_letters"]),
 			"observed_outside_statement": outside,
+			"family_counters":            familyCounters(r),
 			"bounds": map[string]any{"max_allow_origins_entries": len(cfgs[len(cfgs)-1].Origins), "origin_menu": menu, "origin_values": len(origins), "origin_classes": oclasses,
-				"configs": len(cfgs), "requests_per_config": nreq},
+				"configs": len(cfgs), "requests_per_config": nreq,
+				"neighbourhood_configs": r.P.Counters["neigh_configs"], "neighbourhood_origin_values": r.P.Counters["neigh_origin_values"], "neighbourhood_evaluations": r.P.Counters["neigh_evaluations"],
+				"history_configs": r.P.Counters["hist_configs"], "history_request_letters": r.P.Counters["hist_request_letters"], "histories": r.P.Counters["hist_histories"], "history_max_length": map[bool]int{true: 2, false: 3}[r.Quick()]},
 		},
 		Assumptions: []string{
 			"handler-level drive (app.Handler() on a fake connection); fasthttp header parsing is not re-checked here",
-			"reference policy: entry normalisation = trim spaces, lower case, drop one trailing slash; wildcard entry permits scheme://(non-empty labels).domain[:same port]; an Origin value that is not scheme://host[:port] is permitted by no list entry",
+			"reference policy: entry normalisation = trim spaces, lower case, drop one trailing slash; wildcard entry permits scheme://(non-empty labels).domain[:same port]; an Origin value that is not scheme://host[:port] is permitted by no list entry; a host with a byte that is neither a host-name byte nor a URL delimiter/blank/bracket/'*' ('%', ',', '|', tab, non-ASCII ...) matching a wildcard entry as a string is unspecified",
+			"a preflight is OPTIONS + Origin + Access-Control-Request-Method whatever method/headers it asks for: the statement makes no exception for unlisted ones",
 			"where the statement is silent nothing is demanded: Access-Control-Allow-Headers when none are configured, methods/headers sent to a refused origin, Max-Age/Expose-Headers/Private-Network headers, ACAO on OPTIONS without Access-Control-Request-Method, Vary when the answer differs only between 'no Origin' and 'any Origin', function consulted with raw vs lower-cased spelling",
 		},
 		MinOutcomes: 6,
 	})
+}
+
+// familyCounters reports the anti-vacuity counters of the added families in the evidence.
+func familyCounters(r *core.Run) map[string]int64 {
+	out := map[string]int64{}
+	for k, v := range r.P.Counters {
+		if strings.HasPrefix(k, "neigh_") || strings.HasPrefix(k, "hist_") || strings.HasPrefix(k, "mech_") || strings.HasPrefix(k, "cc_") {
+			out[k] = v
+		}
+	}
+	return out
 }
